@@ -521,8 +521,12 @@ def c08(work, v, tier):
                     "index robustness: every method taking an int x every index class x lengths 0..4 x the four index-option sets; "
                     "after each call IsInit, Kind, Len, every Index, the configuration record (VerifDump) and the raw slots are re-validated. "
                     "value robustness: every method with an any / ...any / Operator parameter (found by reflection) x a catalogue of 38 awkward "
-                    "Go values, each followed by a usability probe (String/Unmarshal/IsEqual/Index/Traverse/Less/Valid) -- Frame.tla's AwkwardRule",
-                    frames=[dict(mode="awkward")])
+                    "Go values, each followed by a usability probe (String/Unmarshal/IsEqual/Index/Traverse/Less/Valid) -- Frame.tla's AwkwardRule. "
+                    "Traverse with index paths that fail at some level (every path of length 0-3 over -1..width+1 on all depth-2 trees, random deeper ones): "
+                    "a failed descent reports failure, it is never resumed on an outer level",
+                    frames=[dict(mode="awkward")],
+                    gens=[dict(module="Gen_Traverse", family="d2", fn="traverse", consts=dict(Width=2, MaxPath=3), timeout=3000)],
+                    rands=[dict(module="Check_Traverse", fn="traverse", n=1500 if q else 100000, depth=3, salt=8)])
 
 
 RO_NOTE = ("read-only frame: (1) the state machine with every call family enabled from read-only and writable initial "
